@@ -16,7 +16,7 @@ TraceLog == TLCGet(7)
 LoadLog == TLCSet(7, ndJsonDeserialize(IOEnv.TRACE))
 
 VARIABLES l, cwv, active, nsteps, nfin
-tvars == <<pt, tab, M, unk, deg, ct, nrep, rcvd, nullderef, fin, l, cwv, active, nsteps, nfin>>
+tvars == <<pt, tab, M, unk, deg, ct, nrep, led, rcvd, nullderef, fin, l, cwv, active, nsteps, nfin>>
 
 Dummy == [k |-> 1, r |-> 1, N1 |-> 3, seed |-> 1]
 VecOf(v) == { v[i][1] : i \in DOMAIN v }
@@ -28,6 +28,7 @@ InitFromH(H, k, r) ==
       deg |-> [ row \in 0 .. (r - 1) |-> Cardinality(H[row + 1]) ],
       ct  |-> [ row \in 0 .. (r - 1) |-> NoVal ],
       nrep |-> 0,
+      led |-> [ ctid |-> [ row \in 0 .. (r - 1) |-> 0 ], bid |-> [ e \in 0 .. (k + r - 1) |-> 0 ], heap |-> {}, bad |-> FALSE ],
       bad |-> FALSE ]
 
 SameAsLogged(st, it, p) ==
@@ -40,14 +41,14 @@ SameAsLogged(st, it, p) ==
     /\ st.nrep = it.nrep
 
 Adopt(st) ==
-    /\ tab' = st.tab /\ M' = st.M /\ unk' = st.unk /\ deg' = st.deg /\ ct' = st.ct /\ nrep' = st.nrep /\ nullderef' = st.bad
+    /\ tab' = st.tab /\ M' = st.M /\ unk' = st.unk /\ deg' = st.deg /\ ct' = st.ct /\ nrep' = st.nrep /\ led' = st.led /\ nullderef' = st.bad
 
-Keep == UNCHANGED <<pt, tab, M, unk, deg, ct, nrep, rcvd, nullderef, cwv, active, nsteps>>
+Keep == UNCHANGED <<pt, tab, M, unk, deg, ct, nrep, led, rcvd, nullderef, cwv, active, nsteps>>
 
 Init2 ==
     /\ LoadLog
     /\ l = 1 /\ pt = Dummy /\ cwv = <<>> /\ active = FALSE /\ nsteps = 0 /\ rcvd = {} /\ fin = NoFin /\ nfin = 0
-    /\ tab = <<>> /\ M = {} /\ unk = <<>> /\ deg = <<>> /\ ct = <<>> /\ nrep = 0 /\ nullderef = FALSE
+    /\ tab = <<>> /\ M = {} /\ unk = <<>> /\ deg = <<>> /\ ct = <<>> /\ nrep = 0 /\ led = [ctid |-> <<>>, bid |-> <<>>, heap |-> {}, bad |-> FALSE] /\ nullderef = FALSE
 
 Check(st, ev, p) ==
     IF SameAsLogged(st, ev.it, p)
@@ -63,7 +64,7 @@ TNext ==
                     LET p  == [k |-> ev.k, r |-> ev.r, N1 |-> ev.N1, seed |-> ev.seed]
                         H  == [ i \in DOMAIN ev.H |-> ToSet(ev.H[i]) ]
                         s0 == InitFromH(H, ev.k, ev.r)
-                        s1 == IF ev.lastnull = 1 THEN Inject(p, s0, ev.k + ev.r - 1, {}) ELSE s0
+                        s1 == IF ev.lastnull = 1 THEN [InjectB(p, [s0 EXCEPT !.led = LAlloc(s0.led, 4000)], ev.k + ev.r - 1, {}, 4000) EXCEPT !.led = LFree(@, 4000)] ELSE s0
                     IN  /\ pt' = p
                         /\ cwv' = [ e \in 0 .. (ev.k + ev.r - 1) |-> VecOf(ev.cw[e + 1]) ]
                         /\ rcvd' = {}
@@ -89,10 +90,10 @@ TNext ==
                     IN  /\ IF same THEN nfin' = nfin + 1
                            ELSE PrintT(<<"DRIFT", l, ev.x, "LdpcMl-finish-differs-stage-" \o f.stage>>) /\ nfin' = nfin
                         /\ active' = FALSE
-                        /\ UNCHANGED <<pt, tab, M, unk, deg, ct, nrep, rcvd, nullderef, cwv, nsteps>>
+                        /\ UNCHANGED <<pt, tab, M, unk, deg, ct, nrep, led, rcvd, nullderef, cwv, nsteps>>
              [] ev.e \in {"Finish", "Release", "Reset", "MemFault"} /\ (ev.e \in {"Reset", "MemFault"} \/ ev.s = 0) ->
                     /\ active' = FALSE
-                    /\ UNCHANGED <<pt, tab, M, unk, deg, ct, nrep, rcvd, nullderef, cwv, nsteps, nfin>>
+                    /\ UNCHANGED <<pt, tab, M, unk, deg, ct, nrep, led, rcvd, nullderef, cwv, nsteps, nfin>>
              [] OTHER -> Keep /\ nfin' = nfin
     /\ fin' = fin
     /\ IF l = Len(TraceLog) THEN PrintT(<<"ITSTEPS", nsteps'>>) /\ PrintT(<<"MLSTEPS", nfin'>>) ELSE TRUE
